@@ -122,8 +122,75 @@ let pk_of_sx (x : sx) =
   | L [A "iaspec"; sem; L io] -> pk_ia_spec (sem_of (atom sem)) (List.map (fun b -> atom b = "1") io)
   | _ -> failwith "pk"
 
+
+(* a syntax node of rtamt as the harness dumps it: strings in hex (with a marker), integers in hex *)
+let n_of_hex (h : ostring) : n =
+  (* most significant digit first; builds the binary positive bit by bit *)
+  let bits = ref [] in
+  OS.iter (fun c -> let d = int_of_string ("0x" ^ OS.make 1 c) in
+             for i = 3 downto 0 do bits := ((d lsr i) land 1 = 1) :: !bits done) h;
+  (* !bits: least significant first *)
+  let rec strip = function [] -> [] | l -> l in
+  let rec build (l : bool list) : positive option =
+    match l with
+    | [] -> None
+    | b :: r -> (match build r with
+                 | None -> if b then Some XH else None
+                 | Some p -> Some (if b then XI p else XO p)) in
+  match build (strip !bits) with None -> N0 | Some p -> Npos p
+let bound_of_sx (x : sx) : bound =
+  match x with
+  | L [A num; A den; A u] ->
+      { bnum = n_of_hex num;
+        bden = (match n_of_hex den with Npos p -> p | N0 -> failwith "den");
+        bunit = (match u with "_" -> None | "s" -> Some US | "ms" -> Some UMS | "us" -> Some UUS | "ns" -> Some UNS | _ -> failwith "unit") }
+  | _ -> failwith "bound"
+let un_of = function
+  | "Neg" -> U_not | "Once" -> U_once | "Historically" -> U_hist | "Eventually" -> U_ev | "Always" -> U_alw
+  | "Previous" -> U_prev | "StrongPrevious" -> U_sprev | "Next" -> U_next | "StrongNext" -> U_snext
+  | "Rise" -> U_rise | "Fall" -> U_fall | "Abs" -> U_abs | "Sqrt" -> U_sqrt | "Exp" -> U_exp | "Ln" -> U_ln
+  | "Negate" -> U_negate | s -> failwith ("un " ^ s)
+let tun_of = function
+  | "TimedOnce" -> T_once | "TimedHistorically" -> T_hist | "TimedEventually" -> T_ev | "TimedAlways" -> T_alw
+  | s -> failwith ("tun " ^ s)
+let bin_of = function
+  | "Conjunction" -> B_and | "Disjunction" -> B_or | "Implies" -> B_implies | "Iff" -> B_iff | "Xor" -> B_xor
+  | "Since" -> B_since | "Until" -> B_until | "Addition" -> B_add | "Subtraction" -> B_sub
+  | "Multiplication" -> B_mul | "Division" -> B_div | s -> failwith ("bin " ^ s)
+let tbin_of = function
+  | "TimedSince" -> Tb_since | "TimedUntil" -> Tb_until | "TimedPrecedes" -> Tb_precedes | s -> failwith ("tbin " ^ s)
+let rec node_of_sx (x : sx) : node =
+  match x with
+  | L [A "Variable"; A v; A f] -> NVar (coq_string (unhex v), coq_string (unhex f))
+  | L [A "Constant"; A t] -> NConst (coq_string (unhex t))
+  | L [A "Predicate"; A c; a; b] -> NBin (B_pred (cmp_of c), node_of_sx a, node_of_sx b)
+  | L [A "Pow"; a; b] -> NFn2 (F_pow, node_of_sx a, node_of_sx b)
+  | L [A "Log"; a; b] -> NFn2 (F_log, node_of_sx a, node_of_sx b)
+  | L [A k; a] -> NUn (un_of k, node_of_sx a)
+  | L [A k; (L [A _; A _; A _] as b); (L [A _; A _; A _] as e); a] -> NTUn (tun_of k, bound_of_sx b, bound_of_sx e, node_of_sx a)
+  | L [A k; a; b] -> NBin (bin_of k, node_of_sx a, node_of_sx b)
+  | L [A k; b; e; a1; a2] -> NTBin (tbin_of k, bound_of_sx b, bound_of_sx e, node_of_sx a1, node_of_sx a2)
+  | _ -> failwith "node"
+let hex_of (s : ostring) : ostring =
+  "x" ^ OS.concat "" (List.map (fun c -> Printf.sprintf "%02x" (Char.code c)) (List.init (OS.length s) (OS.get s)))
+
 let handle (x : sx) : ostring =
   match x with
+  | L [A "nmon"; A du; A per; A pu; L vars; L roots; n; w] ->
+      let tu = function "s" -> US | "ms" -> UMS | "us" -> UUS | "ns" -> UNS | _ -> failwith "unit" in
+      let vars = List.map (function L [A v; A f] -> (coq_string (unhex v), coq_string (unhex f)) | _ -> failwith "var") vars in
+      let cv (t : string) : extz =
+        let f = float_of_string (ocaml_string t) in
+        if f = infinity then PosInf else if f = neg_infinity then NegInf else Fin (z_of_int (int_of_float f)) in
+      (match run_nmon vars cv (tu du) (z_of_int (int_of_string per)) (tu pu) (List.map node_of_sx roots) (Obj.magic (trace_of_sx w)) (nat_of_sx n) with
+       | None -> "NMON NONE"
+       | Some out -> "NMON " ^ show_vals out)
+  | L [A "ident"; A h] ->
+      let (ok, (v, f)) = run_ident (coq_string (unhex h)) in
+      "IDENT " ^ show_bool ok ^ " " ^ hex_of (ocaml_string v) ^ " " ^ hex_of (ocaml_string f)
+  | L [A "nname"; t] ->
+      let (wf, names) = run_nnames (node_of_sx t) in
+      "NNAME " ^ show_bool wf ^ " " ^ OS.concat " " (List.map (fun s -> hex_of (ocaml_string s)) names)
   | L [A "off"; pk; f; n; w] ->
       let pk = pk_of_sx pk and f = formula_of_sx f and n = nat_of_sx n and w = trace_of_sx w in
       Printf.sprintf "OFF %s | RHO %s | EXACT %s"
